@@ -26,21 +26,3 @@ Proof. exact src_references_exec_eq. Qed.
 Check References_model_is_source : forall M trees pos,
   src_references_exec (mkIdb M trees) pos = outcome_of_sres (references M (fst pos) (snd pos)).
 Print Assumptions References_model_is_source.
-
-(** completion.rs `exec`: the rendering of the function BODY (token left of the cursor, its grand-parent's kind, the trigger test,
-    the `match` with the `ast::Type::can_cast` guard) equals group grammar's [Completion.completion_model], whose dispatch is the arm
-    TABLE tools/translate/t_completion.py reads from the same function -- for ALL states, trees, offsets and trigger characters.
-    The four vocabulary methods and `complete_classes` are the item tables / format constants of GenCompletion.v in both;
-    `symbol_map.iter_class()` is [HandlerCompApi.cm_classes] (HashMap order: unspecified, association-list order in the model). *)
-From TG.Gen Require GenHandlersCompletion.
-From TG.Model Require Completion HandlerCompApi.
-From TG.Proofs Require GenHandlersCompletionEq.
-
-Theorem C20_dispatch_is_source : forall M trees pos trig,
-  GenHandlersCompletion.src_completion_exec (mkIdb M trees) pos trig =
-  Done (Completion.completion_model (HandlerCompApi.cm_classes M) (trees (fst pos)) (snd pos) trig).
-Proof. exact GenHandlersCompletionEq.src_completion_exec_eq. Qed.
-Check C20_dispatch_is_source : forall M trees pos trig,
-  GenHandlersCompletion.src_completion_exec (mkIdb M trees) pos trig =
-  Done (Completion.completion_model (HandlerCompApi.cm_classes M) (trees (fst pos)) (snd pos) trig).
-Print Assumptions C20_dispatch_is_source.
